@@ -1,6 +1,6 @@
 From Coq Require Extraction ExtrOcamlBasic.
-From Centro Require Import Base.Sx Base.ThresholdNum Model.ThresholdRun Model.OtsuQ Model.AdaptiveGeom Model.RobustQ Model.MctQ
+From Centro Require Import Base.Sx Base.ThresholdNum Model.ThresholdRun Model.OtsuQ Model.AdaptiveGeom Model.RobustQ Model.MctZ Model.RidlerQ
   Spec.ThresholdSpec Spec.ThresholdStruct.
 Extraction Language OCaml.
 Extraction "extracted/c11.ml" entry_run entry_ref entry_check entry_fmul entry_fmul32 entry_otsu
-  entry_geom entry_check_po entry_check_blocks entry_robust entry_mct.
+  entry_geom entry_check_po entry_check_blocks entry_robust entry_mct entry_rc.
